@@ -461,6 +461,7 @@ Apply(st, ev, a) ==
       [] ev = "StripAnnotationIds" -> StripAnnotationIds(st)
       [] ev = "StripDataIds"     -> StripDataIds(st)
       [] ev = "ShrinkToFit"      -> Ok(st, 0)        \* a tuning operation: never changes an answer (C12)
+      [] ev = "RoundTrip"        -> Ok(st, 0)        \* bounded model only; trace validation uses StamSerial!RoundTripOK
       [] OTHER                   -> Err(st)
 
 MutatingEvents == {"AddResource", "AddDataset", "AddKey", "InsertData", "Annotate", "RemoveAnnotation",
